@@ -43,7 +43,8 @@ Lemma oids_set i (l : list (option task)) : i < length l ->
 Proof.
   intros H. destruct (flat_set_nth (fun o : option task => match o with None => [] | Some t => [t] end) None i l H)
     as (R & H1 & H2).
-  exists R. unfold oids. cbn [flat_map]. rewrite !app_nil_r. split; auto.
+  exists R. unfold oids. cbn [flat_map]. split; [rewrite app_nil_r; exact H1|].
+  intros v. rewrite app_nil_r. apply H2.
 Qed.
 
 (* ---- single operations ---------------------------------------------------------------- *)
@@ -69,7 +70,7 @@ Proof.
   destruct Hi as [Hm Hn].
   set (s1 := mkV (v_mod s) (set_nth (norm c es0) (Some t) (v_next s))).
   assert (Hi1 : vinv c s1) by (split; [auto|cbn; rewrite set_nth_length; auto]).
-  destruct (vsched_spec c s1 (norm c es0) 0 rest rnds Hi1) as [H1 H2].
+  destruct (vsched_spec c s1 (norm c es0) d rest rnds Hi1) as [H1 H2].
   split; auto. rewrite H2.
   assert (Hlt : norm c es0 < length (v_next s)) by (rewrite Hn; apply norm_lt).
   destruct (oids_set _ _ Hlt) as (R & Ha & Hb). rewrite En in Ha.
